@@ -411,6 +411,19 @@ def c15(run, args):
     mc_cmds = [c for c in ALL_CMDS if c != "delunknown"]
     run.model_check("GenHub", gen_cfg("mc", mc_cmds, slots=(1, 2), ns=(2,) if quick else (1, 2, 3), maxid=2, maxheld=1, buf=2,
                                       filters=("",) if quick else ("", "a")), label="GenHub(contract model)", timeout=1500)
+    # (1b) the implementation-shaped model of the hub actor and the socket listener's buffer / close protocol (HubImpl.tla): as the
+    #      code is now every property holds; the two named deviations (Close() before its repair, the repaired Close() with its
+    #      statements swapped) must make TLC find the predicted failures (predictions, never verdicts about the code)
+    impl_cfg = lambda old, rf: ("SPECIFICATION Spec\nCONSTANTS\n  Buf = 2\n  OpCap = 2\n  MaxEvents = %d\n  OldClose = %s\n  RemoveFirst = %s\n"
+                                "INVARIANTS HubNeverStuck NoPanic RecorderInOrder RecorderComplete\nCHECK_DEADLOCK FALSE\n" % (6 if quick else 8, old, rf))
+    run.model_check("MCHubImpl", impl_cfg("FALSE", "FALSE"), label="HubImpl (hub actor + socket listener as repaired)")
+    for name, flags in (("OldClose", ("TRUE", "FALSE")), ("RemoveFirst", ("FALSE", "TRUE"))):
+        rc, out, dt = run.tlc("MCHubImpl", impl_cfg(*flags), workers=4, timeout=600, heap="4g", extra=["-continue"])
+        predicted = [x for x in ("HubNeverStuck", "NoPanic", "RecorderComplete") if ("Invariant %s is violated" % x) in out]
+        run.cov["stages"].append({"stage": "model-check", "module": "HubImpl(%s=TRUE)" % name, "mode": "prediction", "violated_as_predicted": predicted, "wall_s": round(dt, 1)})
+        run.log("HubImpl with %s: predicted counterexample found for %s" % (name, predicted))
+        if not predicted:
+            raise Inconclusive("the deviation %s of HubImpl no longer produces its predicted failure: model and check have drifted apart" % name)
     # (2) history: every sequence of dispatches / deletes / joins to a bounded depth, history lengths 1..3
     hist = run.generate("GenHub", gen_cfg("bfs", ["dispatch", "delete", "delunknown", "join", "joinbroken"], depth=4 if quick else 5, slots=(1, 2),
                                           ns=(1, 2, 3), maxid=4), workers=8, timeout=1200)
